@@ -42,3 +42,37 @@ pub struct S3Ordered {
     pub b: i32,
     pub c: i32,
 }
+
+#[derive(SerializeValue)]
+#[scylla(crate = scylla_cql_core, flavor = "enforce_order", forbid_excess_udt_fields)]
+pub struct S3OrderedStrict {
+    pub a: i32,
+    pub b: i32,
+    pub c: i32,
+}
+
+#[derive(SerializeValue)]
+#[scylla(crate = scylla_cql_core, flavor = "enforce_order", skip_name_checks)]
+pub struct S3OrderedNoNames {
+    pub a: i32,
+    pub b: i32,
+    pub c: i32,
+}
+
+#[derive(SerializeValue)]
+#[scylla(crate = scylla_cql_core)]
+pub struct S3Rename {
+    #[scylla(rename = "x")]
+    pub a: i32,
+    pub b: i32,
+    pub c: i32,
+}
+
+#[derive(SerializeValue)]
+#[scylla(crate = scylla_cql_core)]
+pub struct S3Skip {
+    pub a: i32,
+    #[scylla(skip)]
+    pub b: i32,
+    pub c: i32,
+}
